@@ -1560,10 +1560,23 @@ func ruleExtends(c *Ctx) {
 	name := fname(fn)
 	// every built-in symbol, resolved through the builder and this function and played, by folding: when that decides,
 	// how the resolution is written (recursion with an accumulator, a loop up the parents, a joined list) is decided with it
-	if p, n, ok := c.chordPipelineVerdict(); ok && p == "" {
-		c.ok(name, c.pos(fn.Pos()), name, fmt.Sprintf("decided by APPLY play.Key.Apply|pipeline: %d chords folded from the dictionary through GetChordAttributes to the pitches, inherited attributes first", n))
-		return
+	// (beside the built-in dictionary a made-up one: a chain of seven chords, a second third, tones doubled at the octave,
+	// each asked twice; and the function leaves nothing behind between calls)
+	foldDecides := func() (string, bool) {
+		p1, n1, ok1 := c.chordPipelineVerdict()
+		p2, n2, ok2 := c.extendsByFolding()
+		if !ok1 || !ok2 || p1 != "" || p2 != "" || !c.writesOnlyLocals(fn) {
+			return "", false
+		}
+		return fmt.Sprintf("%d built-in chords and %d resolutions in a made-up dictionary (a chain of seven, a second third, tones doubled at the octave) folded through the builder and GetChordAttributes, inherited attributes first, none dropped; the function stores into nothing but its own locals", n1, n2), true
 	}
+	defer func() {
+		// the made-up dictionary is decided in any case
+		if p2, n2, ok2 := c.extendsByFolding(); ok2 {
+			c.site(1)
+			c.check(p2 == "", name+"|chain", c.pos(fn.Pos()), name, fmt.Sprintf("%d resolutions in a made-up dictionary folded: a chain of seven chords, a second third, tones doubled at the octave", n2), name+": "+p2)
+		}
+	}()
 	// the resolution may be split into the lookup and a recursive helper with an accumulator: look at the whole region
 	region := c.regionCalls(fn, nil)
 	fns := []*ssa.Function{fn}
@@ -1696,6 +1709,13 @@ func ruleExtends(c *Ctx) {
 			}
 		}
 	}
+	if problem != "" {
+		// the shape was not recognised: the folds decide when they can (and the function keeps nothing between calls)
+		if verdict, ok := foldDecides(); ok {
+			c.ok(name, c.pos(fn.Pos()), name, "decided by folding: "+verdict)
+			return
+		}
+	}
 	c.check(problem == "", name, c.pos(fn.Pos()), name, "parent's attributes (recursively) then own, looked up by name", name+": "+problem)
 }
 
@@ -1797,6 +1817,13 @@ func ruleBuilder(c *Ctx) {
 		// result goes through NewMap (validation)
 		nNew := len(findRegion(region, func(ci ssa.CallInstruction) bool { return calleeName(ci.Common()) == "chord.NewMap" }))
 		c.check(nNew == 1, name+"|NewMap", c.pos(fn.Pos()), name, "built through NewMap (validated)", "Builder.Build no longer goes through NewMap: references are not validated")
+	}
+	// the later definition wins, for attributes as for chords (a user's file is registered after the built-ins)
+	if bf := c.fn("chord", "Builder.Build"); bf != nil {
+		if problem, ok := c.builderLaterWinsByFolding(); ok {
+			c.site(1)
+			c.check(problem == "", "chord.Builder|later-wins", c.pos(bf.Pos()), fname(bf), "an attribute and a chord defined twice, folded through the builder: the later definition is in force", "chord.Builder: "+problem)
+		}
 	}
 	// what is registered stays registered, in the order it was given: nothing is deleted from the two indexes while they
 	// are built, and the definitions are not re-ordered before `later wins` is applied to them
